@@ -51,6 +51,8 @@ NextKinds(stream, p, strict) ==
 CtxOk(stream, p, ctx) == LET a == ReadAt(stream, p) IN
     /\ IsPrefixOf(a.pfx, ctx)
     /\ IsPrefixOf(ctx, SubSeq(stream, p + 1, Len(stream)))
+    \* a record cut short: the bytes that could be read of it are ALL the remaining bytes
+    /\ (a.k = "short-record" => ctx = SubSeq(stream, p + 1, Len(stream)))
 
 \* the whole reading: records then the terminal classification (used by invariants)
 RECURSIVE ReadAllFrom(_, _, _)
